@@ -1,6 +1,7 @@
 """C04 - all validation entry points, modes and source kinds agree on one verdict."""
 import io
 import os
+import shutil
 import subprocess
 import sys
 import tempfile
@@ -11,13 +12,14 @@ from vk.paths import eval_path, index_paths
 
 PROPERTY = 'C04'
 LEVEL = 'exploration'
-RULE = ('documents: generated valid documents of three schema families and their single-node / identity faults (all fault '
+RULE = ('documents: generated documents of four schema families (shop, tree with an inheritable attribute in 1.1, ctx, fx) and their single-node / identity faults (all fault '
         'classes), corpus instances; for each document every route {schema.is_valid, iter_errors, validate, decode strict, '
         'decode lax, decode skip, to_objects, XsdElement component methods, package-level is_valid / iter_errors / validate / '
         'to_dict, XmlDocument} x source kind {path, file URL, str, bytes, text file, binary file, StringIO, BytesIO, '
         'non-seekable stream, ElementTree element / tree, lxml tree, XMLResource} is executed and all outcomes are compared '
         'pairwise; the xmlschema-validate command is run as a real subprocess on documents with 0, 1, 3, 255, 256, 257 and '
-        '512 errors; a case = (document, route, source kind); distinct non-trivial = distinct (family, fault kind, route, '
+        '512 errors; an option dimension (use_defaults=False given to every entry point); a hints scenario (package-level functions with '
+        'their default use of xsi:schemaLocation hints and a schema instance that covers the root namespace by import); a case = (document, route, source kind); distinct non-trivial = distinct (family, fault kind, route, '
         'source kind) combinations on invalid documents plus distinct CLI error counts')
 ASSUMPTIONS = [
     'errors are identified by (reason, index path of the element), not by object identity or message formatting',
@@ -46,6 +48,7 @@ def plan(tier, seed):
     shards = 16 if tier == 'quick' else 40
     specs = [{'kind': 'gen', 'docs': ndocs // shards, 'gshard': s} for s in range(shards)]
     specs.append({'kind': 'corpus'})
+    specs.append({'kind': 'hints'})
     counts = [0, 1, 3, 255, 256, 257, 512] if tier == 'quick' else [0, 1, 2, 3, 100, 254, 255, 256, 257, 300, 511, 512, 513, 768, 1024]
     for i in range(0, len(counts), 2):
         specs.append({'kind': 'cli', 'counts': counts[i:i + 2], 'no_cov': True})
@@ -368,6 +371,66 @@ CLI_XSD = f'''<xs:schema xmlns:xs="{D.XS}">
 </xs:schema>'''
 
 
+def run_hints(spec, res):
+    """Package-level functions with their default use of location hints: a schema *instance* given by the caller that
+    covers the namespace of the document root (as target namespace or through an import) is the schema that is used,
+    whatever schemaLocation hints the document carries."""
+    xmlschema = env.activate_repo()
+    d = tempfile.mkdtemp(prefix='c04h-')
+    files = {
+        'main.xsd': f'<xs:schema xmlns:xs="{D.XS}" targetNamespace="urn:h:main" xmlns:p="urn:h:part">'
+                    f'<xs:import namespace="urn:h:part" schemaLocation="part.xsd"/>'
+                    f'<xs:element name="top"><xs:complexType><xs:sequence><xs:element ref="p:item" maxOccurs="unbounded"/>'
+                    f'</xs:sequence></xs:complexType></xs:element></xs:schema>',
+        'part.xsd': f'<xs:schema xmlns:xs="{D.XS}" targetNamespace="urn:h:part"><xs:element name="item" type="xs:positiveInteger"/></xs:schema>',
+        # what the hints of the documents point at: same names, looser types
+        'loose_part.xsd': f'<xs:schema xmlns:xs="{D.XS}" targetNamespace="urn:h:part"><xs:element name="item" type="xs:string"/></xs:schema>',
+        'loose_main.xsd': f'<xs:schema xmlns:xs="{D.XS}" targetNamespace="urn:h:main"><xs:element name="top"/></xs:schema>',
+    }
+    for name, text in files.items():
+        with open(os.path.join(d, name), 'w') as f:
+            f.write(text)
+    XSI = 'xmlns:xsi="http://www.w3.org/2001/XMLSchema-instance"'
+    docs = {}
+    for hint_name, hint in (('no-hint', ''), ('hint-to-looser-schema', f' {XSI} xsi:schemaLocation="urn:h:part loose_part.xsd urn:h:main loose_main.xsd"'),
+                            ('hint-to-missing-file', f' {XSI} xsi:schemaLocation="urn:h:part nowhere.xsd"')):
+        for val in ('7', 'abc', '0'):
+            docs[f'imported-root/{hint_name}/{val}'] = f'<p:item xmlns:p="urn:h:part"{hint}>{val}</p:item>'
+            docs[f'target-root/{hint_name}/{val}'] = (f'<m:top xmlns:m="urn:h:main" xmlns:p="urn:h:part"{hint}><p:item>{val}</p:item>'
+                                                      f'<p:item>1</p:item></m:top>')
+    for version, cls in (('1.0', xmlschema.XMLSchema10), ('1.1', xmlschema.XMLSchema11)):
+        schema = cls(os.path.join(d, 'main.xsd'))
+        for label, text in docs.items():
+            path = os.path.join(d, 'doc.xml')
+            with open(path, 'w') as f:
+                f.write(text)
+            ref = [err_key(e, None) for e in schema.iter_errors(path)]
+            case = {'scenario': 'hints', 'version': version, 'doc': text, 'label': label, 'files': files}
+            for route, call in (
+                    ('pkg_is_valid', lambda: xmlschema.is_valid(path, schema)),
+                    ('pkg_iter_errors', lambda: not list(xmlschema.iter_errors(path, schema))),
+                    ('pkg_validate', lambda: xmlschema.validate(path, schema) is None),
+                    ('pkg_to_dict_lax', lambda: not xmlschema.to_dict(path, schema, validation='lax')[1]),
+                    ('xml_document_lax', lambda: not xmlschema.XmlDocument(path, schema=schema, validation='lax').errors)):
+                res.evaluations += 1
+                res.nontrivial.add(env.h8(('hints', version, label, route)))
+                res.count('hints:' + route)
+                try:
+                    valid = bool(call())
+                except xmlschema.XMLSchemaValidationError:
+                    valid = False
+                except xmlschema.XMLSchemaException as e:
+                    res.violation(f'route-raised:{route}:{type(e).__name__}', dict(case, route=route), f'hints {label}: {e!r}'[:300])
+                    continue
+                if valid != (not ref):
+                    res.violation(f'verdict-differs:{route}', dict(case, route=route),
+                                  f'hints/{label} ({version}): {route} with the schema instance says valid={valid}, '
+                                  f'schema.iter_errors says {ref[:2]}')
+                else:
+                    res.count('agree:' + ('valid' if valid else 'invalid'))
+    shutil.rmtree(d, ignore_errors=True)
+
+
 def run_cli(spec, res):
     """The validate command as a real subprocess on documents with exactly n errors."""
     xmlschema = env.activate_repo()
@@ -400,7 +463,7 @@ def run_cli(spec, res):
 
 
 def run_shard(spec, res):
-    {'gen': run_gen, 'corpus': run_corpus, 'cli': run_cli}[spec['kind']](spec, res)
+    {'gen': run_gen, 'corpus': run_corpus, 'cli': run_cli, 'hints': run_hints}[spec['kind']](spec, res)
 
 
 def finalize(res, tier):
@@ -421,7 +484,9 @@ def replay(case):
     from vk.result import Result
     import random
     res = Result()
-    if 'cli_errors' in case:
+    if case.get('scenario') == 'hints':
+        run_hints({}, res)
+    elif 'cli_errors' in case:
         run_cli({'counts': [case['cli_errors']]}, res)
     elif 'corpus' in case:
         run_corpus({'tier': 'thorough', 'seed': 0}, res)
